@@ -5,7 +5,9 @@ cd "$(dirname "$0")/.."
 tier=${3:-quick}
 for seed in $(seq $1 $2); do
   for id in C01 C02 C03 C04 C05 C06 C07 C08 C09 C10 C11 C12 C13 C14 C15 C16 C17 C18 C19 C20; do
+    t0=$(date +%s)
     out=$(VERIF_SEED=$seed ./check $id $tier 2>&1); rc=$?
+    [ -n "$SOAK_TIMES" ] && echo "time $id $tier seed=$seed $(( $(date +%s) - t0 ))s exit=$rc"
     if [ $rc -ne 0 ] || echo "$out" | grep -q "^VIOLATION"; then
       echo "SEED $seed $id exit=$rc :: $(echo "$out" | grep -m1 -A2 'violation detail' | tail -2 | tr '\n' ' ' | cut -c1-300) $(echo "$out" | grep INCONCLUSIVE | head -1)"
     fi
